@@ -56,8 +56,20 @@ var baselineFuncs = func() map[string]bool {
 			m[l] = true
 		}
 	}
+	for _, d := range deanchored {
+		delete(m, d)
+	}
 	return m
 }()
+
+// deanchored: small helpers of the reference tree that the rules do NOT anchor on. They are expanded into their callers
+// like any new helper, on the reference tree too, so that the rules see one normal form whether such a helper exists,
+// was renamed, reshaped (other parameters) or folded into its caller.
+var deanchored = []string{
+	"(*" + modulePath + "/internal/server.HealthCheck).reportResult",
+	"(*" + modulePath + "/internal/server.LoadBalancer).nextTarget",
+	"(*" + modulePath + "/internal/server.LoadBalancer).beginHealthChecks",
+}
 
 // inlineSeq numbers expansions across all rounds of one run (labels and temporaries must stay unique when a later round
 // expands inside the output of an earlier one).
